@@ -31,6 +31,8 @@ try:
         print(p, r.returncode, lines[:1], (detail or {}).get("signature"), flush=True)
 finally:
     subprocess.run(["git", "-C", "/repo", "checkout", "--", "."], check=True)
+    # the evidence files written while the change was applied describe the changed tree: put the committed ones back
+    subprocess.run(["git", "-C", V, "checkout", "--", "evidence"], check=False)
     subprocess.run(["/venv/bin/python", os.path.join(V, "harness", "extract.py")], capture_output=True, cwd=V)
 json.dump(res, open(os.path.join(d, "results.json"), "w"), indent=1)
 caught = [p for p, r in res.items() if r["exit"] == 1]
